@@ -40,7 +40,7 @@ func VerifRun_C13b() {
 		if c >= 0x10 && c <= 0x13 {
 			k := int(c - 0x10)
 			if pay[k] == "" {
-				pay[k] = string(verifBytesIn("pay"+string([]byte{'0' + byte(k)}), 2, "pq"))
+				pay[k] = string(verifBytesIn("pay"+string([]byte{'0' + byte(k)}), 2, "pq%"))
 			}
 			src = append(src, []byte(pay[k])...)
 		} else {
